@@ -37,7 +37,7 @@ def instances(tier, seed):
     for alg, n, bnd, opts in L:
         out.append(dict(name="%s/n%d/%s%s" % (alg, n, bnd, "/" + opts if opts else ""), args=[alg, str(n), bnd, opts],
                         paths=6 if tier == "quick" else 30, base_points=1 if tier == "quick" else 3, flips_per_path=5 if tier == "quick" else 12,
-                        abstract_big=True, max_terms=60, lra_first=True, z3_timeout_ms=120000 if tier == "quick" else 300000, flip_timeout_ms=1500))
+                        abstract_big=True, max_terms=60, lra_first=True, seed_check=True, z3_timeout_ms=120000 if tier == "quick" else 300000, flip_timeout_ms=1500))
     return out
 
 
